@@ -33,6 +33,10 @@ CLAIMED = {
          "Pipeline.tla proves that the stream delivered by source -> W workers -> SortBatches -> Rebatch is a function of the input for every interleaving (W<=3, <=3-4 batches, every keep mask); each emit schedule of the model is forced with gates on the real MakeISliceWorker pool running the real reverse-complement, PCR and demultiplexing workers and the formatted output must equal the one-worker reference; the ten record-wise commands are run on the wolf tutorial reads over a grid of parallelism settings and CommandTrace accepts only byte-identical outputs.",
          "Relational oracle (equality across configurations). Trusted: TLC, the gates/probes of the harness. Grid: 9 configurations x 2 repetitions x 12 command lines in quick, 36 x 3 in thorough; input = 250/1000 read pairs of /repo/sample.",
          "DESIGN.md 5 C05"),
+ "C20": ("TLC checks the bit-level definitions of BitVec.tla against native integers (all pairs at 6/8 bits) and the limb-shaped LimbModel.tla against BitVec (all shift amounts); ObiFpCases.tla enumerates limb-pattern operands x all shifts 0..W+64 x 3 widths and exports every required result, which the harness replays on all methods of Uint64/Uint128/Uint256; ObiFpTrace.tla re-evaluates the specification on random-operand events recorded from the real code",
+         "Model checking of an explicit TLA+ arithmetic specification: 33 437 (quick) / 240 811 (thorough) TLC-generated cases over word-boundary limb patterns and every shift amount are replayed on the real types, panics compared with the specification's overflow flag, plus 4 000 / 60 000 random events validated by TLC. This is the property least suited to the technique; it is used because the definitions are short and independently validated.",
+         "Trusted: TLC, CommunityModules FoldLeft/Json/CSV, the byte<->limb decoding of the harness, the verif limb constructors. Exactness is relative to BitVec.tla, validated exhaustively at 6/8 bits only; 64-256-bit expectations use 8-bit limbs proven equal to BitVec at <= 16 bits. Division by zero, non-fitting narrowing casts and LeftShift64 with n > 64 are not asserted. One known finding (Uint128.Mul high x high, pinned test expects the wrapped value).",
+         "DESIGN.md 5 C20"),
 }
 
 NOT_YET = "check not built yet in this round (planned, see DESIGN.md 10); not claimed"
